@@ -153,6 +153,9 @@ def run(chk, repo, tier):
         ok_r = lp is not None and lp['pre'].get(var) == S('out') \
             and isinstance(p.ret, Poly) and p.ret.single_atom() is not None and p.ret.single_atom()[0] == 'loop' \
             and p.ret.single_atom()[1] == lp['phi'][var].single_atom()[1]
+        if not ok_r and lp is None and ins:
+            # a fold whose step hands the accumulator back: every insert works on the caller's array, which is returned
+            ok_r = ins[0].bound.get('out') == S('out') and ins[0].in_loop and p.ret == S('out')
     chk.ob('C07-b', 'E-accumulate', f.key, 'weight forwarded to every insert', ok_w, '', f.loc())
     chk.ob('C07-b', 'E-accumulate', f.key, 'accumulates into the caller\'s array and returns it', bool(ok_r), '', f.loc())
 
